@@ -25,7 +25,8 @@ PROP = {'lean_props': ['Comrak.Props.C12', 'Comrak.Props.C11C12Canon'],
  'assumptions': ['documents are valid UTF-8 (Rust &str)', 'NUL is kept out of the generator (the property excludes it for the literal clause)',
                  'parser panics are C01\'s subject and are counted as skipped here']}
 
-TEXT = {'text': 'Proof + search. slice/sliceFail (Comrak/Sourcepos.lean) are Lean definitions executed by the driver on every node of the real tree: '
+TEXT = {'text_added': "The generator also writes tabs where it wrote spaces in line prefixes (after `>`, as indentation), consistently over a document; a failure on a paragraph continuation line that carries its single container's prefix, or in a table whose lines share one prefix inside a single container, is not part of the listed tab class. Schemes with an autolink trigger character inside (news://, twitter://) are in the vocabulary.",
+ 'text': 'Proof + search. slice/sliceFail (Comrak/Sourcepos.lean) are Lean definitions executed by the driver on every node of the real tree: '
          'a verbatim text node\'s slice must equal its literal; code spans, emphasis, strong, strikethrough, links, images, autolinks, headings, '
          'fenced code, block quotes, thematic breaks and table cells must start and end on their own delimiters or content. Lean proves that a '
          'slice is a contiguous part of the source of the stated length, that the content of a leaf block maps byte for byte to the source lines '
